@@ -30,6 +30,7 @@ type Prog struct {
 	SSA    *ssa.Program
 	vtaCG  *callgraph.Graph
 	chaCG  *callgraph.Graph
+	fieldInit map[string]bool // fieldOnlyInitialised memo
 	// forbidden features found in repository packages (unsafe, reflect
 	// calls, linkname, cgo); affected checks treat them as undecided.
 	Forbidden []string
